@@ -170,7 +170,7 @@ def run_check(prop: str, tier: str, replay: str | None = None) -> int:
             'observation_tables': agg['tables'],
             'known_finding_hits': known_hits,
             'violation_keys': unknown,
-            'inconclusive_reasons': agg['inconclusive'][:10],
+            'inconclusive_reasons': [r[-400:] for r in agg['inconclusive'][:10]],
         }
         ev = {
             'property_id': prop, 'tier': tier, 'seed': seed,
